@@ -49,7 +49,10 @@ def main():
             lean = ctx.lean or {}
             broken = (any(s != 'proved' for s in (lean.get('theorems') or {}).values())
                       or lean.get('build_error') or lean.get('audit_problems') or ctx.disagreements)
-            if broken and not ctx.failures and hasattr(mod, 'widen') and ctx.time_left() > 20:
+            findings = core.load_known(pid)
+            matchers = getattr(mod, 'MATCHERS', {})
+            unmatched = [f for f in ctx.failures if core.match_finding(f, findings, matchers) is None]
+            if broken and not unmatched and hasattr(mod, 'widen') and ctx.time_left() > 20:
                 ctx.note('an obligation or the correspondence no longer checks: widening the failing-input search')
                 ctx.widened = True
                 mod.widen(ctx)
